@@ -242,7 +242,7 @@ CHECKS = {
         design_ref="5/C08", technique='Coq proof (ownership invariant of an executable lifecycle machine, Hoare triples with an exceptional postcondition, induction over histories and loops) + extracted-model vs library differential on random histories with an instrumented element type and allocator',
         note="Coq 8.16.1 kernel; every property theorem 'Closed under the global context'; one model coq/Model/Life.v (26 entry points as programs over checked micro-steps; element type given by three traits: trivially default constructible, trivially destructible, trivially copyable) shared by C04/C06/C08/C09/C10; the refinement of the machine to the reference interpreter over element VALUES is proved (C04_value_semantics, one commuting square per operation) and additionally evaluated on every generated history; hypotheses: every extensions argument has D dimensions, value lists have the announced length; faults: single injection point per run; rank 0 through Model/LifeRank0.v; ExtrOcamlBasic extraction; g++ 12/libstdc++"),
     "C09": dict(
-        text='Theorem C09_fault_safety_partial (every history, every single injection point k at an allocation or element construction/assignment outside three named sites: the exception reaches the caller, nothing leaks, nothing is released twice, every array stays valid, temporaries are unwound), C09_{ctor_leak,reextent_leak,reextent_move}_refuted with vm_compute witnesses reproduced on the library (three known findings: constructors leak their block when an element constructor throws; reextent & leaks its new block; reextent && leaves an invalid array when allocation fails); no-storage operations do not allocate (move construction, swap); assignment through views (row = row, view = view, elements() = elements(); named, temporary and moved forms) is an operation of every history: C09_fault_safety_partial covers it (its fault site is an element assignment), C09_view_assign_keeps_arrays; tie: std::terminate in the harness child is a violation.',
+        text='Theorem C09_fault_safety_partial (every history, every single injection point k at an allocation or element construction/assignment outside three named sites: the exception reaches the caller, nothing leaks, nothing is released twice, every array stays valid, temporaries are unwound), C09_{ctor_leak,reextent_leak,reextent_move}_refuted with vm_compute witnesses reproduced on the library (three known findings: constructors leak their block when an element constructor throws; reextent & leaks its new block; reextent && leaves an invalid array when allocation fails); no-storage operations do not allocate (move construction, swap); assignment through views (row = row, view = view, elements() = elements(); named, temporary and moved forms) is an operation of every history: C09_fault_safety_partial covers it (its fault site is an element assignment), C09_view_assign_keeps_arrays; tie: std::terminate in the harness child is a violation. Dimensionality 0 (Properties_Rank0.v): C09_rank0_fault_safety (every history of the 27 rank-0 entry points, every single injection point outside the constructor site, every element and allocator configuration: the exception reaches the caller, no leak, every array valid) and C09_rank0_ctor_leak_refuted (known finding). Tie: h_rank0 under fault injection (one injection point per run, every fallible event of every history; five allocator configurations incl. pmr; compared with the extracted machine under the same oracle; std::terminate in the child is a violation). Old-or-new VALUE after a failed operation and honest noexcept specifications are shown by the tie, not by the theorem.',
         design_ref="5/C09", technique='Coq proof (ownership invariant of an executable lifecycle machine, Hoare triples with an exceptional postcondition, induction over histories and loops) + extracted-model vs library differential on random histories with an instrumented element type and allocator',
         note="Coq 8.16.1 kernel; every property theorem 'Closed under the global context'; one model coq/Model/Life.v (26 entry points as programs over checked micro-steps; element type given by three traits: trivially default constructible, trivially destructible, trivially copyable) shared by C04/C06/C08/C09/C10; the refinement of the machine to the reference interpreter over element VALUES is proved (C04_value_semantics, one commuting square per operation) and additionally evaluated on every generated history; hypotheses: every extensions argument has D dimensions, value lists have the announced length; faults: single injection point per run; rank 0 through Model/LifeRank0.v; ExtrOcamlBasic extraction; g++ 12/libstdc++"),
     "C10": dict(
